@@ -84,6 +84,9 @@ struct Obs {
     publishes: Vec<(i64, Value)>,
     done: Vec<i64>,
     reached: Vec<(i64, String)>,
+    /// versions for which the server announced a background analysis (verif/spawned, sent by the
+    /// main loop before the synchronous publish of that version)
+    spawned: Vec<i64>,
 }
 
 fn pump(l: &mut Lsp, uri: &str, obs: &mut Obs, wait_ms: u64) -> Result<bool, String> {
@@ -95,6 +98,7 @@ fn pump(l: &mut Lsp, uri: &str, obs: &mut Obs, wait_ms: u64) -> Result<bool, Str
                 Some("textDocument/publishDiagnostics") if m["params"]["uri"] == uri => {
                     obs.publishes.push((m["params"]["version"].as_i64().unwrap_or(-1), m["params"]["diagnostics"].clone()));
                 }
+                Some("verif/spawned") if m["params"]["uri"] == uri => obs.spawned.push(m["params"]["version"].as_i64().unwrap_or(-1)),
                 Some("verif/done") if m["params"]["uri"] == uri => obs.done.push(m["params"]["version"].as_i64().unwrap_or(-1)),
                 Some("verif/reached") if m["params"]["uri"] == uri => obs.reached.push((m["params"]["version"].as_i64().unwrap_or(-1), m["params"]["phase"].as_str().unwrap_or("").to_string())),
                 _ => {}
@@ -120,23 +124,21 @@ fn wait_until(l: &mut Lsp, uri: &str, obs: &mut Obs, max_ms: u64, cond: impl Fn(
 fn reference(l: &mut Lsp, doc: &Doc, uri: &str) -> Result<Option<Vec<String>>, String> {
     l.notify("verif/gating", json!({"on": true}));
     l.open(uri, 1, &doc.text);
-    let mut obs = Obs { publishes: vec![], done: vec![], reached: vec![] };
+    let mut obs = Obs { publishes: vec![], done: vec![], reached: vec![], spawned: vec![] };
     if !wait_until(l, uri, &mut obs, 10000, |o| !o.publishes.is_empty())? {
         return Ok(None);
     }
-    // background analysis exists iff the synchronous part succeeded (empty diagnostics)
-    let sync_ok = obs.publishes[0].1.as_array().map(|a| a.is_empty()).unwrap_or(false);
-    if sync_ok {
-        if !wait_until(l, uri, &mut obs, 10000, |o| o.reached.iter().any(|r| r.1 == "Start"))? {
-            // synchronous check_grammar error after a successful parse publishes an error, not []
+    // a background analysis exists iff the server announced one (the announcement precedes the
+    // synchronous publish on the same channel)
+    if !obs.spawned.is_empty() {
+        if !wait_until(l, uri, &mut obs, 60000, |o| o.reached.iter().any(|r| r.1 == "Start"))? {
             return Ok(None);
         }
         l.notify("verif/release", json!({"uri": uri, "version": 1, "phase": "Start"}));
         l.notify("verif/release", json!({"uri": uri, "version": 1, "phase": "Publish"}));
-        if !wait_until(l, uri, &mut obs, 30000, |o| !o.done.is_empty())? {
+        if !wait_until(l, uri, &mut obs, 60000, |o| !o.done.is_empty())? {
             return Ok(None);
         }
-        let _ = pump(l, uri, &mut obs, 30);
     }
     l.notify("verif/gating", json!({"on": false}));
     l.close(uri);
@@ -166,79 +168,112 @@ pub fn run(ctx: &Ctx) -> i32 {
         }
         let uri = format!("file:///c29_{i}.par");
         let ruri = format!("file:///c29_{i}_ref.par");
-        // release order for the gated schedule: a permutation of the versions that have a
-        // background analysis
-        let mut order: Vec<i64> = (1..=nver as i64).collect();
-        rng.shuffle(&mut order);
         let gap_ms = if gated { 0 } else { *rng.pick(&[0u64, 0, 1, 5, 20]) };
         let docs2 = docs.clone();
-        let order2 = order.clone();
+        let choices: Vec<usize> = (0..64).map(|_| rng.below(1 << 20)).collect();
+        let trace: std::cell::RefCell<Vec<String>> = std::cell::RefCell::new(vec![]);
         let r = with_session(3, |l| -> Result<(Option<Vec<String>>, Obs, usize), String> {
             let tdbg = Instant::now();
             let refd = reference(l, docs2.last().unwrap(), &ruri)?;
             if std::env::var("PV_DEBUG").is_ok() { eprintln!("reference done after {} ms: {refd:?}", tdbg.elapsed().as_millis()); }
-            let mut obs = Obs { publishes: vec![], done: vec![], reached: vec![] };
-            if gated {
-                l.notify("verif/gating", json!({"on": true}));
-            }
-            for (vi, d) in docs2.iter().enumerate() {
-                if vi == 0 {
-                    l.open(&uri, 1, &d.text);
-                } else {
-                    l.change(&uri, vi as i64 + 1, &d.text);
-                }
-                if gap_ms > 0 {
-                    std::thread::sleep(Duration::from_millis(gap_ms));
-                }
-            }
-            // every version gets exactly one synchronous publish
+            let mut obs = Obs { publishes: vec![], done: vec![], reached: vec![], spawned: vec![] };
             let nv = docs2.len();
-            if std::env::var("PV_DEBUG").is_ok() { eprintln!("history sent after {} ms", tdbg.elapsed().as_millis()); }
-            if !wait_until(l, &uri, &mut obs, 20000, |o| (1..=nv as i64).all(|v| o.publishes.iter().any(|p| p.0 == v)))? {
-                return Err("TIMEOUT waiting for synchronous publishes".into());
-            }
-            // versions with a background analysis: those whose first publish was empty and that
-            // announce themselves (gated) - in natural mode we learn it from verif/done
-            let mut expected_threads = 0usize;
+            let expected_threads;
             if gated {
-                // give every spawned analysis time to reach its Start gate
-                let with_bg: Vec<i64> = (1..=nv as i64).filter(|v| obs.publishes.iter().find(|p| p.0 == *v).map(|p| p.1.as_array().map(|a| a.is_empty()).unwrap_or(false)).unwrap_or(false)).collect();
-                let _ = wait_until(l, &uri, &mut obs, 3000, |o| with_bg.iter().all(|v| o.reached.iter().any(|r| r.0 == *v && r.1 == "Start")));
-                let started: Vec<i64> = obs.reached.iter().filter(|r| r.1 == "Start").map(|r| r.0).collect();
-                expected_threads = started.len();
-                for v in order2.iter().filter(|v| started.contains(v)) {
-                    l.notify("verif/release", json!({"uri": uri, "version": v, "phase": "Start"}));
-                    l.notify("verif/release", json!({"uri": uri, "version": v, "phase": "Publish"}));
-                    if !wait_until(l, &uri, &mut obs, 8000, |o| o.done.contains(v))? {
-                        if std::env::var("PV_DEBUG").is_ok() { eprintln!("STUCK waiting done v{v}: started {started:?} order {order2:?} reached {:?} done {:?} publishes {:?}", obs.reached, obs.done, obs.publishes.iter().map(|p| p.0).collect::<Vec<_>>()); }
-                        return Err("TIMEOUT waiting for a released analysis".into());
+                // Controlled schedule: edits and the two gates of every background analysis (before
+                // the analysis starts, before it publishes) are interleaved in a random order. At
+                // each step one enabled action is taken and its deterministic consequence awaited
+                // (events only; the generous limits only ever yield "inconclusive").
+                l.notify("verif/gating", json!({"on": true}));
+                let mut next = 0usize;
+                let mut start_rel: Vec<i64> = vec![];
+                let mut publish_rel: Vec<i64> = vec![];
+                let mut step = 0usize;
+                loop {
+                    #[derive(Clone, Copy, Debug)]
+                    enum Act {
+                        Send,
+                        RelStart(i64),
+                        RelPublish(i64),
+                    }
+                    let mut acts: Vec<Act> = vec![];
+                    if next < nv {
+                        acts.push(Act::Send);
+                        // bias towards edits arriving while analyses are in flight
+                        acts.push(Act::Send);
+                    }
+                    for v in &obs.spawned {
+                        if obs.reached.iter().any(|r| r.0 == *v && r.1 == "Start") && !start_rel.contains(v) {
+                            acts.push(Act::RelStart(*v));
+                        }
+                        if obs.reached.iter().any(|r| r.0 == *v && r.1 == "Publish") && !publish_rel.contains(v) {
+                            acts.push(Act::RelPublish(*v));
+                        }
+                    }
+                    if acts.is_empty() {
+                        break;
+                    }
+                    let act = acts[choices[step % choices.len()] % acts.len()];
+                    step += 1;
+                    match act {
+                        Act::Send => {
+                            let v = next as i64 + 1;
+                            if next == 0 {
+                                l.open(&uri, 1, &docs2[0].text);
+                            } else {
+                                l.change(&uri, v, &docs2[next].text);
+                            }
+                            next += 1;
+                            trace.borrow_mut().push(format!("edit{v}"));
+                            if !wait_until(l, &uri, &mut obs, 60000, |o| o.publishes.iter().any(|p| p.0 == v))? {
+                                return Err("TIMEOUT waiting for a synchronous publish".into());
+                            }
+                            if obs.spawned.contains(&v) && !wait_until(l, &uri, &mut obs, 60000, |o| o.reached.iter().any(|r| r.0 == v && r.1 == "Start"))? {
+                                return Err("TIMEOUT waiting for an analysis to reach its start gate".into());
+                            }
+                        }
+                        Act::RelStart(v) => {
+                            start_rel.push(v);
+                            trace.borrow_mut().push(format!("start{v}"));
+                            l.notify("verif/release", json!({"uri": uri, "version": v, "phase": "Start"}));
+                            if !wait_until(l, &uri, &mut obs, 90000, |o| o.done.contains(&v) || o.reached.iter().any(|r| r.0 == v && r.1 == "Publish"))? {
+                                return Err("TIMEOUT waiting for a started analysis".into());
+                            }
+                        }
+                        Act::RelPublish(v) => {
+                            publish_rel.push(v);
+                            trace.borrow_mut().push(format!("publish{v}"));
+                            l.notify("verif/release", json!({"uri": uri, "version": v, "phase": "Publish"}));
+                            if !wait_until(l, &uri, &mut obs, 60000, |o| o.done.contains(&v))? {
+                                return Err("TIMEOUT waiting for a released analysis".into());
+                            }
+                        }
                     }
                 }
+                expected_threads = obs.spawned.len();
                 l.notify("verif/gating", json!({"on": false}));
             } else {
-                // natural schedule: quiescence = every analysis that was started reports done;
-                // the number of analyses = number of versions whose synchronous publish was empty
-                // and whose check_grammar did not fail synchronously; we wait for silence instead
-                let mut last = Instant::now();
-                let end = Instant::now() + Duration::from_millis(30000);
-                loop {
-                    let before = obs.publishes.len() + obs.done.len();
-                    let _ = pump(l, &uri, &mut obs, 100)?;
-                    if obs.publishes.len() + obs.done.len() != before {
-                        last = Instant::now();
+                for (vi, d) in docs2.iter().enumerate() {
+                    if vi == 0 {
+                        l.open(&uri, 1, &d.text);
+                    } else {
+                        l.change(&uri, vi as i64 + 1, &d.text);
                     }
-                    let sync_ok = (1..=nv as i64).filter(|v| obs.publishes.iter().find(|p| p.0 == *v).map(|p| p.1.as_array().map(|a| a.is_empty()).unwrap_or(false)).unwrap_or(false)).count();
-                    if obs.done.len() >= sync_ok && last.elapsed() > Duration::from_millis(150) {
-                        expected_threads = obs.done.len();
-                        break;
+                    if gap_ms > 0 {
+                        std::thread::sleep(Duration::from_millis(gap_ms));
                     }
-                    if last.elapsed() > Duration::from_millis(2500) {
-                        expected_threads = usize::MAX;
-                        break;
-                    }
-                    if Instant::now() > end {
-                        return Err("TIMEOUT waiting for quiescence".into());
-                    }
+                }
+                // every version gets exactly one synchronous publish; the set of background analyses
+                // is known exactly (one verif/spawned per analysis, sent before the synchronous publish
+                // of its version); quiescence = every announced analysis reported done (its publish,
+                // if any, precedes verif/done on the same channel)
+                if !wait_until(l, &uri, &mut obs, 60000, |o| (1..=nv as i64).all(|v| o.publishes.iter().any(|p| p.0 == v)))? {
+                    return Err("TIMEOUT waiting for synchronous publishes".into());
+                }
+                let spawned: Vec<i64> = obs.spawned.clone();
+                expected_threads = spawned.len();
+                if !wait_until(l, &uri, &mut obs, 90000, |o| spawned.iter().all(|v| o.done.contains(v)))? {
+                    return Err("TIMEOUT waiting for quiescence".into());
                 }
             }
             let _ = pump(l, &uri, &mut obs, 30);
@@ -268,10 +303,7 @@ pub fn run(ctx: &Ctx) -> i32 {
             }
             Ok(Ok(x)) => x,
         };
-        if nthreads == usize::MAX {
-            rep.inconclusive("natural schedule: not all analyses reported done within 2.5 s of silence");
-            return;
-        }
+        let _ = nthreads;
         let Some(refd) = refd else {
             rep.inconclusive("reference diagnostics not obtainable");
             return;
@@ -280,7 +312,7 @@ pub fn run(ctx: &Ctx) -> i32 {
         let arrival: Vec<String> = obs.publishes.iter().map(|p| format!("v{}:{}", p.0, diag_key(&p.1).len())).collect();
         let last = obs.publishes.last().cloned().unwrap_or((-1, Value::Null));
         let finalv = docs.len() as i64;
-        let wit = || json!({"schedule": if gated { "gated" } else { "natural" }, "release_order": order, "gap_ms": gap_ms, "history_classes": classes_s, "arrival_order": arrival, "final_version": finalv,
+        let wit = || json!({"schedule": if gated { "gated" } else { "natural" }, "schedule_trace": trace.borrow().clone(), "gap_ms": gap_ms, "history_classes": classes_s, "arrival_order": arrival, "final_version": finalv,
             "last_published": {"version": last.0, "diagnostics": diag_key(&last.1)}, "reference_diagnostics_of_final_text": refd, "texts": docs.iter().map(|d| d.text.clone()).collect::<Vec<_>>()});
         if last.0 != finalv {
             rep.violation(json!({"kind": "last-diagnostics-of-stale-version"}), format!("after all analyses finished the last published diagnostics belong to version {} but the document is at version {finalv}", last.0), wit());
@@ -288,9 +320,9 @@ pub fn run(ctx: &Ctx) -> i32 {
             rep.violation(json!({"kind": "last-diagnostics-differ-from-final-text"}), "the last published diagnostics carry the final version but are not those of the final text alone", wit());
         }
         rep.count(&format!("interleaving_{}", arrival.join(",")));
-        rep.nontrivial_h(hash_str(&arrival.join(",")) ^ hash_str(&classes_s.join(",")) ^ hash_str(&format!("{order:?}{gated}")));
+        rep.nontrivial_h(hash_str(&arrival.join(",")) ^ hash_str(&classes_s.join(",")) ^ hash_str(&format!("{:?}{gated}", trace.borrow())));
         if i % 25 == 0 {
-            rep.sample(json!({"schedule": if gated { "gated" } else { "natural" }, "history_classes": classes_s, "release_order": order, "arrival_order": arrival, "reference": refd}));
+            rep.sample(json!({"schedule": if gated { "gated" } else { "natural" }, "history_classes": classes_s, "schedule_trace": trace.borrow().clone(), "arrival_order": arrival, "reference": refd}));
         }
     });
     // fold the per-interleaving counters into one number
@@ -301,7 +333,7 @@ pub fn run(ctx: &Ctx) -> i32 {
         rep.counters.remove(&k);
     }
     rep.count_n("distinct_arrival_interleavings", n_inter);
-    let rule = "case = open/change history of 2-4 versions of one document whose texts are drawn from {fine, not LL(3) (background error), LALR with conflicts (background warning), syntax error (synchronous error)} against the real parol-ls over stdio; schedules: gated (cfg(parol_verif) gates hold every background analysis at its start; they are released one by one in a random permutation, each awaited via verif/done) and natural (no gating, 0-20 ms gaps; quiescence = all analyses reported verif/done and 150 ms of silence, otherwise inconclusive); checker over the recorded message log: the last publishDiagnostics for the document must carry the final version and equal the reference diagnostics of the final text alone (fresh document, gated so that the background result comes last); distinct by (history classes, schedule, release order, arrival interleaving)";
+    let rule = "case = open/change history of 2-4 versions of one document whose texts are drawn from {fine, not LL(3) (background error), LALR with conflicts (background warning), syntax error (synchronous error)} against the real parol-ls over stdio; schedules: controlled (cfg(parol_verif) gates hold every background analysis before it starts and before it publishes; edits, start releases and publish releases are interleaved in a random order, so that edits arrive before, during and after an analysis; every step is awaited through events: synchronous publish, verif/spawned, verif/reached, verif/done) and natural (no gating, 0-20 ms gaps; quiescence = every analysis announced by verif/spawned reported verif/done - events only, wall-clock limits yield inconclusive); checker over the recorded message log: the last publishDiagnostics for the document must carry the final version and equal the reference diagnostics of the final text alone (fresh document, gated so that the background result comes last); distinct by (history classes, schedule, release order, arrival interleaving)";
     let min = if quick { 40 } else { 600 };
     finish(ctx, rep, rule, (min as f64 * ctx.scale) as u64, json!({}), t0.elapsed().as_secs_f64())
 }
